@@ -111,20 +111,22 @@ for n in (3, 4):
 KLEX(5, 1, 0, "t", cap=5400, mem=16)
 for n in (1, 2, 3):
     KLEX(n, 2, 0, "q", cap=600, mem=4)
-for n in (1, 2):
-    KLEX(n, 3, 0, "q", cap=900, mem=6)
+KLEX(1, 3, 0, "q", cap=900, mem=6)
+KLEX(2, 3, 0, "t", cap=2400, mem=6)
 # class-representative dispatch byte, longer remaining input (boundaries: 12/13 characters, block header digits)
 for cls, n in ((1, 6), (1, 13), (1, 14), (15, 13), (15, 14), (16, 4), (17, 4), (18, 5), (20, 5)):
     KLEX(n, 0, cls, "q", cap=600, mem=4)
-for cls, n in ((1, 6), (1, 13), (1, 14), (2, 5), (3, 5), (4, 5), (24, 8), (24, 14), (25, 6), (5, 6), (6, 6), (7, 6), (8, 5),
+for cls, n in ((1, 6), (1, 13), (1, 14), (2, 5), (4, 5), (24, 8), (25, 6), (5, 6), (6, 6), (7, 6), (8, 5),
                (9, 6), (10, 8), (12, 6), (13, 6), (14, 6), (19, 4), (18, 4), (20, 4), (22, 3), (23, 3), (21, 3)):
     KLEX(n, 1, cls, "q", cap=900, mem=6)
+for cls, n in ((3, 5), (24, 14)):
+    KLEX(n, 1, cls, "t", cap=2400, mem=6)
 for cls, n in ((2, 8), (3, 8), (24, 15), (5, 10), (5, 20), (6, 25), (10, 14), (11, 12), (12, 10), (14, 10)):
     KLEX(n, 1, cls, "t", cap=3600, mem=10)
 
 # ---------------------------------------------------------------------------- C06 (kernel)
 for L in (0, 1, 2, 3, 4):
-    H(f"c06_q_params_l{L}", "C06", f"c06::params::<{L}, _>",
+    H(f"c06_{'q' if L < 3 else 't'}_params_l{L}", "C06", f"c06::params::<{L}, _>",
       f"Parameters over every lexable token stream of {L} tokens after a header (data, ',', ';', lexer error) driven by 3 "
       f"calls, each next_token (required) or next_optional_token: the i-th successful call returns the i-th data element "
       f"before the first ';', a required call past it -109, an optional one None, a lexer error as is; only data elements "
@@ -182,7 +184,7 @@ H("c08_q_accept_matrix", "C08", "c08::accept_matrix", "every (target, element ty
 # ---------------------------------------------------------------------------- C09 (K-fmt)
 for t in INTS:
     wide = t not in ("u8", "i8", "u16", "i16")
-    fams = [(1, "q", "|v| < 100000"), (2, "q", "within 100000 of MIN/MAX")] + ([(0, "ta", "every value")] if t in ("u32", "i64") else []) if wide else [(0, "q", "every value")]
+    fams = [(1, "q", "|v| < 100000"), (2, "t", "within 100000 of MIN/MAX")] + ([(0, "ta", "every value")] if t in ("u32", "i64") else []) if wide else [(0, "q", "every value")]
     for fam, tier, fd in fams:
         H(f"c09_{tier}_dec_{t}_f{fam}", "C09", f"c09::dec_{t}::<{fam}, _>",
           f"{t} formatted as decimal response data: an independent <NR1> decoder returns the value ({fd})", f"{t}: {fd}",
@@ -192,6 +194,8 @@ for t in INTS:
         tier = "q" if (small or radix == 16) else "ta"
         if tier == "ta" and t not in ("u32", "u64"):
             continue
+        if tier == "q" and t in ("i32", "i64", "isize"):
+            tier = "t"   # the signed wide types repeat the unsigned ones' code path for non-negative values
         H(f"c09_{tier}_radix{radix}_{t}", "C09", f"c09::int_nondecimal::<{t}, {radix}, _>",
           f"{t} (non-negative) formatted as #{'H' if radix == 16 else 'Q' if radix == 8 else 'B'} response data: an independent "
           f"shift decoder returns the value", f"every non-negative {t}", cap_s=(900 if tier == "q" else 1800), mem_gb=3,
@@ -199,13 +203,14 @@ for t in INTS:
 H("c09_q_bool_sentinels", "C09", "c09::bool_and_sentinels", "bool -> 0/1; NaN -> 9.91E+37, +-infinity -> +-9.9E+37 exactly, "
   "for f32 and f64", "both bools; every non-finite f32/f64 bit pattern", cap_s=300, mem_gb=3, unwind=12)
 for n, q, tier in ((0, 0, "q"), (1, 0, "q"), (2, 0, "q"), (3, 0, "t"), (4, 0, "t"), (5, 0, "ta"),
-                   (1, 1, "q"), (2, 1, "q"), (3, 1, "t"), (3, 2, "ta")):
+                   (1, 1, "q"), (2, 1, "t"), (3, 1, "t"), (3, 2, "ta")):
     qd = "without a double quote" if q == 0 else f"holding {q} double quote(s)"
     H(f"c09_{tier}_string_n{n}_q{q}_dec", "C09", f"c09::string::<{n}, {q}, {n + 2 + q}, false, _>",
       f"ASCII byte string of {n} bytes {qd}: the quoted response decodes (independent un-doubling decoder) to the original "
       f"bytes", f"all ASCII strings of {n} bytes {qd}", cap_s=(900 if tier == "q" else 2400), mem_gb=(4 if n < 4 else 10),
       unwind=n * 2 + 8, stubset="ascii")
     if q == 0:
+        tier = "t" if (tier == "q" and n == 2) else tier
         H(f"c09_{tier}_string_n{n}_q{q}_own", "C09", f"c09::string::<{n}, {q}, {n + 2 + q}, true, _>",
           f"ASCII byte string of {n} bytes {qd}: the response re-lexes (own parser) to one string element with the original "
           f"bytes", f"all ASCII strings of {n} bytes {qd}", cap_s=(900 if tier == "q" else 2400),
@@ -293,7 +298,7 @@ for ql in (0, 1, 2):
       f"without extended text, standard): ESR |= class bit, exactly one item appended (-350 marker when full), nothing "
       f"else changes", "all register states, all error numbers", cap_s=200, mem_gb=2, unwind=12, sample=(ql == 1))
 for ql in (0, 1, 2, 3):
-    H(f"c13_q_next_q{ql}", "C13", f"c13::next::<{ql}, _>", f"SYSTem:ERRor[:NEXT]? called directly with {ql} queued custom "
+    H(f"c13_{'q' if ql < 2 else 't'}_next_q{ql}", "C13", f"c13::next::<{ql}, _>", f"SYSTem:ERRor[:NEXT]? called directly with {ql} queued custom "
       f"errors of arbitrary number: response decodes (independent decoder) to the oldest item, exactly it is removed; "
       f"empty -> 0,\"No error\"", "all error numbers, all register states; queue length concrete", cap_s=600, mem_gb=4,
       unwind=20)
@@ -421,7 +426,7 @@ H("c19_q_from_token_n4", "C19", "c19::from_token::<4, _>", "ChannelList / Numeri
 ENUMS = {"E1": "BINary|REAL|ASCii1|ASCii2|L125", "E2": "VOLTage|CURRent", "E3": "ALPHa(u8)|BETA3(u16)|GAMMa",
          "E4": "CHANnel1|CHANnel2|CHANnel10|X|MAXimum|OFF"}
 for e, d in ENUMS.items():
-    for L, tier in ((6, "q"), (12, "t")):
+    for L, tier in ((6, "q" if e != "E4" else "t"), (12, "t")) + (((4, "q"),) if e == "E4" else ()):
         H(f"c20_{tier}_select_{e.lower()}_{L}", "C20", f"c20::select::<c20::{e}, {L}, _>",
           f"derive(ScpiEnum) on {{{d}}}: from_mnemonic / TryFrom<Token> of every character datum of 0..{L} bytes == first "
           f"variant whose mnemonic reference-matches, else -224", f"character data <= {L} bytes over [A-Za-z0-9_]",
@@ -433,7 +438,7 @@ for e, d in ENUMS.items():
           f"{{{d}}}: variant #{vi} ({d.split('|')[vi]}) reports its mnemonic; its response text is character data and "
           f"selects the same variant (from_mnemonic and through the real lexer + TryFrom)", "one variant per instance; "
           "all variants of the family are instantiated", cap_s=300, mem_gb=3, unwind=16,
-          also=(["C09"] if (e, vi) in (("E1", 0), ("E1", 3), ("E1", 4), ("E4", 2)) else []))
+          also=(["C09"] if (e, vi) in (("E1", 4), ("E4", 2)) else []))
 
 
 # ---------------------------------------------------------------------------- RL-tok (thorough tier; one at a time)
@@ -450,17 +455,14 @@ for L, cap, pull, opt, kind, capS in ((1, 8, 0, "false", "ta", 1800), (3, 8, 0, 
 # ---------------------------------------------------------------------------- C01: a representative subset re-run under its id
 C01_SET = set(
     [f"c04_q_lex_m0_c0_n{n}" for n in range(0, 5)] + [f"c04_q_lex_m1_c0_n{n}" for n in range(0, 3)]
-    + [f"c04_q_lex_m2_c0_n{n}" for n in (1, 2, 3)] + [f"c04_q_lex_m3_c0_n{n}" for n in (1, 2)]
-    + ["c04_q_lex_m1_c10_n8", "c04_q_lex_m1_c12_n6", "c04_q_lex_m1_c14_n6", "c04_q_lex_m1_c5_n6", "c04_q_lex_m1_c24_n8",
-       "c04_q_lex_m1_c9_n6", "c04_q_lex_m1_c8_n5", "c04_q_lex_m1_c1_n14", "c04_q_lex_m0_c1_n14",
+    + [f"c04_q_lex_m2_c0_n{n}" for n in (1, 2, 3)] + ["c04_q_lex_m3_c0_n1", "c04_t_lex_m3_c0_n2"]
+    + ["c04_q_lex_m1_c10_n8", "c04_q_lex_m1_c12_n6", "c04_q_lex_m1_c14_n6", "c04_q_lex_m1_c5_n6",
        "c04_t_lex_m0_c0_n5", "c04_t_lex_m0_c0_n6", "c04_t_lex_m1_c0_n3", "c04_t_lex_m1_c0_n4",
        "c07_q_kernel_u8", "c07_q_kernel_i64", "c07_q_kernel_u64", "c07_q_kernel_isize", "c07_q_nr1_u8_n3", "c07_q_other_u8",
-       "c08_q_accept_matrix", "c06_q_params_l2", "c06_q_params_l3",
-       "c19_q_chan_step_n3", "c19_q_chan_step_n6", "c19_q_num_step_n3", "c19_q_num_step_n6", "c19_t_chan_step_n8",
-       "c19_t_num_step_n8"]
-    + [f"c19_q_spec_iter_n{n}" for n in range(1, 6)] + ["c19_t_spec_iter_n6", "c19_t_spec_iter_n7"])
-C14_SET = {"c04_q_lex_m0_c0_n3", "c04_q_lex_m1_c0_n2", "c04_q_lex_m1_c10_n8", "c19_q_chan_step_n3", "c19_q_num_step_n3",
-           "c07_q_other_u8", "c08_q_accept_matrix"}
+       "c08_q_accept_matrix", "c06_q_params_l2", "c06_t_params_l3",
+       "c19_q_chan_step_n3", "c19_q_num_step_n3", "c19_t_chan_step_n8", "c19_t_num_step_n8"]
+    + [f"c19_q_spec_iter_n{n}" for n in range(1, 4)] + ["c19_t_spec_iter_n6", "c19_t_spec_iter_n7"])
+C14_SET = {"c04_q_lex_m0_c0_n3", "c04_q_lex_m1_c0_n1", "c19_q_num_step_n3", "c07_q_other_u8", "c08_q_accept_matrix"}
 assert C14_SET <= {h["name"] for h in ALL}
 for _h in ALL:
     if _h["name"] in C01_SET and "C01" not in _h["also"]:
@@ -593,7 +595,7 @@ PROPS["C20"] = {
 
 PROPS["C13"] = {
     "bounds": "one step from an arbitrary documented-wiring device: handle_error with 0..2 of 2 slots used; :COUN? for any "
-              "reported queue length < 100000; SYST:ERR? / "
+              "reported queue length < 100000; SYST:ERR? with 0..1 items (2..3 in the thorough tier) / "
               ":COUN? with 0..3 items, :ALL? with 0..1 items (2 and 3 are thorough-tier attempts: the drain loop over a "
               "symbolic-length ArrayVec did not finish symbolic execution in 15 min); *ESR? (c16_q_esr); *OPC (c16_q_opc_*); "
               "error numbers unrestricted",
@@ -691,9 +693,10 @@ PROPS["C08"] = {
 }
 
 PROPS["C09"] = {
-    "bounds": {"quick": "all ten integer types in decimal (8/16-bit: every value; 32/64-bit: |v| < 10^5 and within 10^5 of "
-                        "MIN/MAX) and in #H (every non-negative value; #Q/#B for 8/16-bit); bool; NaN/infinity sentinels; "
-                        "ASCII strings of 0..2 bytes (every content incl. quotes); blocks of 0,1,5,9,10,12 bytes; "
+    "bounds": {"quick": "all ten integer types in decimal (8/16-bit: every value; 32/64-bit: |v| < 10^5; within 10^5 of "
+                        "MIN/MAX in the thorough tier) and in #H (every non-negative value of the 8/16-bit and the unsigned "
+                        "32/64-bit types; #Q/#B for 8/16-bit); bool; NaN/infinity sentinels; ASCII strings of 0..2 bytes "
+                        "through the independent decoder (0..1 bytes through the own parser); blocks of 0,1,5,9,10,12 bytes; "
                         "character data 1,3,6,12 bytes; expressions 0,1,3,6 bytes; lists of 0..1 u16; custom error items "
                         "with a 1-byte message; enum variants (C20 family)",
                "thorough": "strings up to 4 bytes (5,6 attempted); lists of 2 (3 attempted); error items with 2-3 byte "
@@ -754,8 +757,8 @@ PROPS["C11"] = {
 }
 
 PROPS["C06"] = {
-    "bounds": {"quick": "Parameters kernel: every lexable token stream of 0..4 tokens after a header, every usage script "
-                        "of 3 required/optional calls",
+    "bounds": {"quick": "Parameters kernel: every lexable token stream of 0..2 tokens after a header (3..4 in the thorough "
+                        "tier), every usage script of 3 required/optional calls",
                "thorough": "plus the dispatcher at token level (RL-tok): handlers pulling 0..2 required/optional "
                            "parameters on every lexable 1..3-token script (4 attempted) - offered tokens, -109, -108 before "
                            "the next unit starts"},
